@@ -240,7 +240,9 @@ func c15Diff(a, b c15Genome, exact, withMods bool) string {
 			}
 		}
 	}
-	neq := func(x, y c15N) bool { return x.Id == y.Id && x.Type == y.Type && x.Act == y.Act && ieq(x.Trait, y.Trait) }
+	neq := func(x, y c15N) bool {
+		return x.Id == y.Id && x.Type == y.Type && x.Act == y.Act && ieq(x.Trait, y.Trait)
+	}
 	for i := range a.Nodes {
 		if !neq(a.Nodes[i], b.Nodes[i]) {
 			return fmt.Sprintf("node #%d: %s != %s", i, c15JSON(a.Nodes[i]), c15JSON(b.Nodes[i]))
@@ -1802,7 +1804,7 @@ func c15Modular(rng *rand.Rand) []*genetics.Genome {
 	one := c15fs(1)
 	j := c15Genome{Id: 5,
 		Traits: []c15T{{1, ps(0.1)}, {2, ps(0.2)}},
-		Nodes: []c15N{{1, 3, 17, nil}, {2, 1, 17, ip(1)}, {3, 1, 17, nil}, {4, 0, 14, nil}, {5, 0, 14, ip(2)}, {6, 0, 17, nil}, {7, 2, 3, nil}},
+		Nodes:  []c15N{{1, 3, 17, nil}, {2, 1, 17, ip(1)}, {3, 1, 17, nil}, {4, 0, 14, nil}, {5, 0, 14, ip(2)}, {6, 0, 17, nil}, {7, 2, 3, nil}},
 		Genes: []c15G{{1, 4, false, c15fs(0.5), ip(1), 1, c15fs(0.5), true}, {2, 4, false, c15fs(-1.25), nil, 2, c15fs(0), true},
 			{3, 5, false, c15fs(1e-3), ip(2), 3, c15fs(2), false}, {6, 7, false, c15fs(3), nil, 4, c15fs(0), true}},
 		Mods: []c15M{{Node: c15N{8, 0, 21, nil}, Innov: 5, Mut: c15fs(0.5), En: true, Ins: []c15L{{4, one}, {5, one}}, Outs: []c15L{{6, one}}},
@@ -2138,14 +2140,14 @@ func runC15(r *Run) error {
 func replayC15(r *Run, input []byte) error {
 	quiet()
 	var head struct {
-		Kind       string       `json:"kind"`
-		Genome     *c15Genome   `json:"genome"`
-		Genomes    []c15Genome  `json:"genomes"`
-		Organism   *c15Org      `json:"organism"`
-		Experiment *c15ExpSpec  `json:"experiment"`
-		Mode       int          `json:"mode"`
-		Seed       int64        `json:"seed"`
-		Value      string       `json:"value"`
+		Kind       string      `json:"kind"`
+		Genome     *c15Genome  `json:"genome"`
+		Genomes    []c15Genome `json:"genomes"`
+		Organism   *c15Org     `json:"organism"`
+		Experiment *c15ExpSpec `json:"experiment"`
+		Mode       int         `json:"mode"`
+		Seed       int64       `json:"seed"`
+		Value      string      `json:"value"`
 	}
 	if err := json.Unmarshal(input, &head); err != nil {
 		return err
